@@ -2,7 +2,7 @@
    (Gen/Src.v) computes RFC 2868 s3.5 (Spec/C11.v with H = MD5). *)
 From Coq Require Import String.
 From Radius Require Import Base.Bytes Base.Res Base.GoLite Gen.Src Crypto.MD5 Proofs.SrcBase Proofs.SrcCtx Model.SrcRun
-  Spec.C04 Spec.C11 Proofs.SrcPassword Proofs.UserPassword.
+  Spec.C04 Spec.C11 Proofs.SrcXor Proofs.UserPassword.
 Open Scope list_scope.
 Open Scope nat_scope.
 
